@@ -36,7 +36,9 @@ type H struct{}
 func (H) ID() string { return "C07" }
 
 // Faults implements core.Harness.
-func (H) Faults() core.FaultMenu { return core.FaultMenu{Sequential: true, MaxSteps: 100000} }
+func (H) Faults() core.FaultMenu {
+	return core.FaultMenu{Sequential: true, MapOrder: true, MaxSteps: 100000}
+}
 
 // Decode implements core.Harness.
 func (H) Decode(b []byte) (any, error) {
